@@ -1,5 +1,30 @@
-(* C16 — visitors enter/leave every AST node exactly once, nested, in list order.
-   (statements only; proofs live in coq/proofs) *)
-From GT Require Import Visitor.
-Example C16_placeholder : True. Proof. exact I. Qed.
-Print Assumptions C16_placeholder.
+(* C16 — the visitor context reports the schema type of every position correctly.
+   Statements only; every proof is one [exact]/rewrite of lemmas from coq/proofs. *)
+From GT Require Import Visitor Sexp.
+From GTS Require Import Annot WfSchema PoolSchemas.
+From GTP Require Import VisitorFacts TraceFacts.
+
+(* At every callback the six context answers are exactly what the environment-passing
+   specification [annot] prescribes for that position (absent where it prescribes nothing). *)
+Theorem C16_context : forall (s : sdocument) (d : document),
+  wf_schema s = true ->
+  map (fun ec : event * ctx => (fst ec, answers_of (snd ec))) (trace s d) = annot s d.
+Proof.
+  intros s d Hwf. rewrite trace_eq.
+  exact (ctr_document_answers s (wf_query_entry_ok s Hwf) d).
+Qed.
+Print Assumptions C16_context.
+
+(* All six stacks are restored by the walk: for every visitor, user state and start context. *)
+Theorem C16_balanced : forall St (h : St -> event -> ctx -> St) s d c st,
+  fst (visit_document h s d c st) = c.
+Proof. intros St h s d c st. rewrite (visit_document_fusion h s d c st). reflexivity. Qed.
+Print Assumptions C16_balanced.
+
+(* non-vacuity of the hypothesis: the pool schemas (the crate's own test schema, implicit root
+   names, an explicit query-only schema definition) are well-formed *)
+Example C16_wf_examples :
+  (opt_map wf_schema pool_crate, opt_map wf_schema pool_implicit,
+   opt_map wf_schema pool_explicit_query_only) = (Some true, Some true, Some true).
+Proof. vm_compute. reflexivity. Qed.
+Print Assumptions C16_wf_examples.
